@@ -476,22 +476,34 @@ def replay_hyp(data):
 # =====================================================================================================
 # (d) MimeLite clipping
 # =====================================================================================================
-def mime_code(cfg):
+def uf_pel():
+  loss, _, _ = ufs.make_uf_loss('loss17')
+
+  def pel(params, batch, rng):
+    idx = np.asarray(batch['idx'])
+    if len(idx) == 0:
+      return jnp.zeros((0,))
+    return jnp.stack([loss(params, (jnp.asarray(int(i), jnp.int32),)) for i in idx])
+  return pel
+
+
+def mime_code(cfg, concrete=False):
   F = _fx()
   sizes = cfg['sizes']
 
   def fn(w, b, X, y, c, keys):
     clip = cfg['clip'] if cfg['clip'] != 'sym' else c
-    alg = F['mime_lite'].mime_lite(lin_pel(X, y), F['optimizers'].sgd(0.5), hp(2), F['cds'].PaddedBatchHParams(batch_size=2),
+    alg = F['mime_lite'].mime_lite(lin_pel(X, y) if concrete else uf_pel(), F['optimizers'].sgd(0.5), hp(2), F['cds'].PaddedBatchHParams(batch_size=2),
                                    server_learning_rate=1.0, client_delta_clip_norm=clip)
     state = alg.init({'w': w, 'b': b})
     clients = [(cid, d, keys[i]) for i, (cid, d) in enumerate(zip(ids(sizes), datasets(sizes)))]
     new, diag = alg.apply(state, clients)
-    return {'params': new.params, 'clipped_norms': jnp.stack([diag[cid]['clipped_delta_l2_norm'] for cid in ids(sizes)])}
+    return {'params': new.params, 'clipped_norms': jnp.stack([diag[cid].get('clipped_delta_l2_norm', diag[cid]['delta_l2_norm'])   # norm of what is aggregated
+                                            for cid in ids(sizes)])}
   return fn
 
 
-def mime_deltas(cfg):
+def mime_deltas(cfg, concrete=False):
   """unclipped client deltas by definition (local SGD steps)."""
   F = _fx()
   sizes = cfg['sizes']
@@ -499,7 +511,7 @@ def mime_deltas(cfg):
 
   def fn(w, b, X, y, c, keys):
     params = {'w': w, 'b': b}
-    pel0 = lin_pel(X, y)
+    pel0 = lin_pel(X, y) if concrete else uf_pel()
     copt = F['optimizers'].sgd(0.5)
     out = []
     for i in range(len(sizes)):
@@ -520,6 +532,7 @@ def run_mime(run, cfg, timeout):
   N = max(sum(sizes), 1)
   w, b, X, y = sj.symarr('w', (D,)), sj.symarr('b', ()), sj.symarr('X', (N, D)), sj.symarr('y', (N,))
   c = sj.symarr('c', ())
+  sj.declare_sign(c[()], 'pos')       # clip norm > 0 (also asserted as an assumption below)
   keys = sj.rawkeyarr('k', (len(sizes),))
   sym = (w, b, X, y, c, keys)
   ctx = sj.Ctx()
@@ -539,20 +552,22 @@ def run_mime(run, cfg, timeout):
     for i in range(len(sizes)):
       goals.append(('aggregated-norm<=bound[c%d]' % i, sj.B_and(sj.finite(out['clipped_norms'][i]),
                                                                  sj.f_le(out['clipped_norms'][i], cval))))
-    # server update uses the clipped deltas: params' = params - sum n_i clip(delta_i) / sum n_i
+    # server update uses the clipped deltas: params' = params - sum n_i clip(delta_i) / sum n_i,  clip(d) = d * min(1, c/||d||)
     tot = sum(sizes)
-    scales = []
-    for i in range(len(sizes)):
-      n2 = sum([sj.zr(dl[i, j]) * sj.zr(dl[i, j]) for j in range(D + 1)])
-      s = z3.Real('scale_%d' % i)
-      # s = min(1, c/||d||):  s in (0,1],  s = 1 if ||d|| <= c  else  s*||d|| = c   (squared form)
-      ctx.facts += [s >= 0, s <= 1, z3.If(n2 <= sj.zr(cval) * sj.zr(cval), s == 1, s * s * n2 == sj.zr(cval) * sj.zr(cval))]
-      scales.append(s)
-    pin = [w[0], w[1], b[()]]
+
+    def ref_update(w_, b_, X_, y_, c_, keys_):
+      dl_ = mime_deltas(cfg)(w_, b_, X_, y_, c_, keys_)
+      cc = cfg['clip'] if cfg['clip'] != 'sym' else c_
+      acc = jnp.zeros((D + 1,))
+      for i in range(len(sizes)):
+        nrm = jnp.sqrt(jnp.sum(dl_[i] * dl_[i]))
+        acc = acc + sizes[i] * dl_[i] * jnp.minimum(1, cc / nrm)
+      pin_ = jnp.concatenate([w_, b_[None]])
+      return pin_ - (acc / tot if tot else 0 * acc)
+    refp, _, _, _ = sj.run_symbolic(ref_update, jh.abstract_of(sym), sym, ctx=ctx)
     pout = [out['params']['w'][0], out['params']['w'][1], out['params']['b'][()]]
     for j in range(D + 1):
-      exp = sj.zr(pin[j]) - (sum([sizes[i] * scales[i] * sj.zr(dl[i, j]) for i in range(len(sizes))]) / tot if tot else 0)
-      goals.append(('server-uses-clipped-deltas[%d]' % j, sj.B_and(sj.finite(pout[j]), sj.xr(pout[j]).v == exp)))
+      goals.append(('server-uses-clipped-deltas[%d]' % j, sj.B_and(sj.finite(pout[j]), sj.same(pout[j], refp[j]))))
     viol = h.prove_all('clip', ctx, assum, goals)
     h.witness_sat('reach(some update exceeds the bound)', ctx, assum + [z3.Or(*[sum([sj.zr(dl[i, j]) * sj.zr(dl[i, j]) for j in range(D + 1)]) > sj.zr(cval) * sj.zr(cval) for i in range(len(sizes))])])
   except Exception as e:   # pylint: disable=broad-except
@@ -569,15 +584,18 @@ def run_mime(run, cfg, timeout):
 
 
 def replay_mime(data):
+  """Replay on the real code with a concrete quadratic loss whose client updates exceed the bound."""
   cfg = data['cfg']
-  a = data['args']
+  rng = np.random.RandomState(1)
+  N = max(sum(cfg['sizes']), 1)
+  a = [np.ones(D), 0.5, rng.randn(N, D) * 2, rng.randn(N) * 3, 0.25, np.zeros((len(cfg['sizes']), 2), np.uint32)]
   args = [jnp.asarray(np.asarray(x, np.float64)) for x in a[:5]] + [jnp.asarray(np.asarray(a[5], np.uint32))]
   cval = float(a[4]) if cfg['clip'] == 'sym' else float(cfg['clip'])
   try:
-    out = mime_code(cfg)(*args)
+    out = mime_code(cfg, concrete=True)(*args)
   except Exception as e:   # pylint: disable=broad-except
     return True, 'real code raises %r' % (e,)
-  dl = np.asarray(mime_deltas(cfg)(*args), np.float64)
+  dl = np.asarray(mime_deltas(cfg, concrete=True)(*args), np.float64)
   norms = np.sqrt((dl ** 2).sum(axis=1))
   scale = np.where(norms <= cval, 1.0, cval / np.where(norms > 0, norms, 1.0))
   sizes = np.asarray(cfg['sizes'], np.float64)
@@ -609,13 +627,13 @@ def apfl_code(cfg):
     st = alg.init({'w': w, 'b': b})
     pre = {}
     for i in cfg['known']:
-      pre[ids(sizes)[i]] = F['apfl'].ClientState(params={'w': cw[i], 'b': cb[i]}, interpolation_coefficients={'w': aw[i], 'b': ab[i]})
+      pre[ids(sizes)[i]] = F['apfl'].ClientState(params={'w': cw[i], 'b': cb[i]}, interpolation_coefficients={'w': aw[i], 'b': ab[i]})  # one coefficient per leaf
     state = F['apfl'].ServerState(st.params, st.opt_state, dict(pre))
     clients = [(ids(sizes)[i], datasets(sizes)[i], keys[i]) for i in cfg['participants']]
     new, diag = alg.apply(state, clients)
-    coeffs = [jnp.concatenate([new.client_states[cid].interpolation_coefficients['w'], new.client_states[cid].interpolation_coefficients['b'][None]])
+    coeffs = [jnp.concatenate([jnp.ravel(jnp.asarray(l, jnp.float32)) for l in jax.tree_util.tree_leaves(new.client_states[cid].interpolation_coefficients)])
               for cid in sorted(new.client_states)]
-    return {'coeffs': jnp.stack(coeffs) if coeffs else jnp.zeros((0, D + 1)), 'keys': sorted(new.client_states)}
+    return {'coeffs': jnp.stack(coeffs) if coeffs else jnp.zeros((0, 2)), 'keys': sorted(new.client_states)}
   return fn
 
 
@@ -626,12 +644,12 @@ def run_apfl(run, cfg, timeout):
   n = len(sizes)
   w, b = sj.symarr('w', (D,)), sj.symarr('b', ())
   cw, cb = sj.symarr('cw', (n, D)), sj.symarr('cb', (n,))
-  aw, ab = sj.symarr('aw', (n, D)), sj.symarr('ab', (n,))
+  aw, ab = sj.symarr('aw', (n,)), sj.symarr('ab', (n,))
   keys = sj.rawkeyarr('k', (n,))
   sym = (w, b, cw, cb, aw, ab, keys)
   assum = []
   for i in range(n):
-    for v in list(aw[i]) + [ab[i]]:
+    for v in [aw[i], ab[i]]:
       assum += [v >= 0, v <= 1]
   ctx = sj.Ctx()
   captured = {}
